@@ -78,6 +78,10 @@ def conditions(tier):
     n = "target_two"
     q.append(("target_mode_two_targets", _m(n, three, ((0, 0, 0, 0), [(0, 1, 0), (1, 2, 0), (2, 0, 0)]), [("Target",), (), P + ("Target",)], ps=(-1, 1, 1)), n, 600,
               "Target on scaffolds 1 and 3 of the map, scaffold 2 untagged between them, S4 absent"))
+    for tag in ("Haplotig", "FalseDuplicate"):
+        n = f"target_then_{tag}"
+        q.append((f"target_mode_later_scaffold_tagged_{tag}", _m(n, three, ((0, 0, 0, 0), [(0, 0, 0), (1, 1, 0), (2, 2, 0)]), [P + ("Target",), (tag,), ()], ps=(1, 1, -1)), n, 600,
+                  f"Target mode: S1 painted Target, then a scaffold WITHOUT Target tagged {tag} (its own tag decides: {tag} assembly), then an untagged one (contaminant); S4 absent (contaminant)"))
     # haplotypes
     haps = [("S1", "FGF"), ("S2", "FF"), ("HAP2_scaffold_7", "F"), ("hap1_scaffold_9", "F"), ("scaffold_11", "F")]
     n = "hap_unplaced_first"
